@@ -34,6 +34,35 @@ TEXT = {
             "idempotent for every byte string. Correspondence: parse(to_string(x)) == x computed by the real crates on wf/near/token streams, "
             "subtags and every state of operation histories.",
             "proof of the round trip on the invariant, reachability of the invariant"),
+    "C06": ("Theorems: generic - for any tables satisfying tablesWF and any valid (language, script, region), maximize = the dictionary "
+            "formulation Spec.maximize over the tables (binary search = find? on strictly sorted tables, proved for the toolchain's "
+            "size-halving algorithm); data - the compiled tables (re-translated from the compiled crate on every run) satisfy tablesWF and "
+            "are exactly the derivation of the CLDR JSON (decide +kernel over all 8,219 entries), hence maximize = Spec.maximize over the "
+            "CLDR association list, every CLDR key maximizes to its value (every_entry), unchanged iff all present or no entry matches, "
+            "given subtags kept, most specific entry wins. Correspondence: max/limax on all CLDR keys, their one-subtag perturbations and "
+            "cross sections; the CLDR dictionary answer judges the implementation directly.",
+            "generic proof (binary search contract + cascade) plus kernel-decided data facts over the complete tables"),
+    "C14": ("Theorems: generic - a listed script decides alone, unlisted script + non-RTL language is LTR, variants never matter, the two "
+            "configurations differ only when no listed script decides and the language is RTL-listed (then the feature-less build says RTL); "
+            "character_direction over the compiled tables = the reference decision over the CLDR dictionary for every valid identifier; "
+            "data (decide +kernel over all 710 CLDR layout entries) - with likelysubtags the result equals characterOrder for every locale, "
+            "without it every deviation is a script-less identifier of a language CLDR lists with more than one direction. "
+            "Correspondence: dir on the 710 names (+ a variant) and the triple streams, in builds with and without the feature; the layout "
+            "JSON judges the implementation directly.",
+            "generic proof of the decision code plus kernel-decided agreement with the complete CLDR layout data, two feature builds"),
+    "C18": ("Theorems by decide +kernel over the complete data, re-decided whenever the compiled tables or the JSON change: each table "
+            "strictly increasing in the binary search's integer key order; each table = the derivation (filter, map, sort) of the CLDR "
+            "likelySubtags JSON, nothing unplaced, keys distinct (so exactly one row per key, carrying the CLDR value); every stored integer "
+            "decodes to a well-formed subtag (tablesWF); direction tables = the derivation of the layout files; CLDR_VERSION = the JSON's; "
+            "every row is reachable by the look-up. Tie: the tables are read from the compiled crate through the cfg-guarded re-export "
+            "(translator), the JSON by an independent translator. Search: CLDR keys and layout names queried on the real crate.",
+            "translation of the compiled tables and the CLDR JSON into Lean, equalities decided by the kernel"),
+    "C20": ("The model has exactly one configuration parameter (character_direction's likely flag); theorems pin the extent of that one "
+            "difference (C14). The property is decided for the code by the tie: the same model must correspond to the harness built "
+            "against none / likelysubtags / all features (quick) or all 8 combinations (thorough) on the parsing, serialising, comparing, "
+            "matching and mutating streams, and every transcript is compared with the feature-less build. This is the thinnest use of the "
+            "technique: the theorem is structural, the decision is N correspondence runs.",
+            "structural theorem about the model + correspondence of every feature build to the same model"),
     "C07": ("Theorems, generic in the tables (any tables satisfying tablesWF): maximize never panics/errs, fills all three, keeps every "
             "given subtag (valid input), flag true iff a look-up hit, false leaves the identifier unchanged, variants/extensions untouched, "
             "idempotent; lifted to Locale through step. Needs only 'a returned row is in the table and matches the key', not binary-search "
